@@ -251,11 +251,24 @@ pub fn monitors_of(k: &K) -> Vec<String> {
     }
 }
 
+thread_local! {
+    static NO_TX: std::cell::Cell<bool> = const { std::cell::Cell::new(false) };
+}
+/// run `f` with `env.transaction == None` (the message is executed outside a transaction)
+pub fn outside_transaction<T>(f: impl FnOnce() -> T) -> T {
+    NO_TX.with(|c| c.set(true));
+    let r = f();
+    NO_TX.with(|c| c.set(false));
+    r
+}
+
 impl World {
     pub fn env(&self) -> Env {
         Env {
             block: BlockInfo { height: 12_345, time: Timestamp::from_nanos(self.time * 1_000_000_000 + SUBSEC_NANOS), chain_id: "sim-1".into() },
-            transaction: Some(TransactionInfo { index: TX_INDEX }),
+            // wasmd fills `transaction` only while delivering a transaction: a message executed by the gov
+            // module or by an end-blocker (a passed proposal, a cron module) sees None
+            transaction: if NO_TX.with(|c| c.get()) { None } else { Some(TransactionInfo { index: TX_INDEX }) },
             contract: ContractInfo { address: Addr::unchecked(contract_addr()) },
         }
     }
